@@ -79,15 +79,15 @@ func (h *legacyHandler) QueueResourcePack(info *Info) error {
 	defer h.Unlock()
 	h.outstandingPacks.PushBack(info)
 	if h.outstandingPacks.Len() == 1 {
-		return h.tickResourcePackQueue()
+		return h.tickResourcePackQueueLocked()
 	}
 	return nil
 }
 
+// tickResourcePackQueueLocked must be called with the handler's write lock held
+// (sync.RWMutex is not reentrant, so it must not lock again).
 // with comments form java code
-func (h *legacyHandler) tickResourcePackQueue() error {
-	h.Lock()
-	defer h.Unlock()
+func (h *legacyHandler) tickResourcePackQueueLocked() error {
 	queued, ok := h.outstandingPacks.Front()
 	if ok {
 		// Check if the player declined a resource pack once already
@@ -104,7 +104,7 @@ func (h *legacyHandler) tickResourcePackQueue() error {
 					Hash:   queued.Hash,
 					Status: DeclinedResponseStatus,
 				}
-				_, err := h.OnResourcePackResponse(resBundle)
+				_, err := h.onResourcePackResponseLocked(resBundle, h.shouldDisconnectForForcePack)
 				if err != nil {
 					return err
 				}
@@ -132,7 +132,14 @@ func (h *legacyHandler) onResourcePackResponse(
 ) (bool, error) {
 	h.Lock()
 	defer h.Unlock()
+	return h.onResourcePackResponseLocked(bundle, shouldDisconnectForForcePack)
+}
 
+// onResourcePackResponseLocked must be called with the handler's write lock held.
+func (h *legacyHandler) onResourcePackResponseLocked(
+	bundle *ResponseBundle,
+	shouldDisconnectForForcePack func(e *PlayerResourcePackStatusEvent) bool,
+) (bool, error) {
 	peek := bundle.Status.Intermediate()
 	var queued *Info
 	if peek {
@@ -171,7 +178,7 @@ func (h *legacyHandler) onResourcePackResponse(
 
 	var err error
 	if !peek {
-		err = h.tickResourcePackQueue()
+		err = h.tickResourcePackQueueLocked()
 	}
 	handled, err2 := h.HandleResponseResult(queued, bundle)
 	return handled, errors.Join(err, err2)
